@@ -86,12 +86,12 @@ CLAIMS = {
         "note": "Trusted: as C01; rayon schedules are abstracted (any order), sampled on the code by pool size. Fits of parallel problems are compared in the fit stream.",
     },
     "C04": {
-        "text": "Kernel-checked for every behaviour of the numerical oracles: fit = Ok exactly for ResidualsZero/Orthogonal/Converged and both branches carry the optimizer's final problem and report (c04_ok_iff, c04_successful_iff); "
-                "a trial is accepted only if it strictly decreases the residual norm, hence the objective (c04_accept_decreases, c04_objective_decreases, c04_predicted_nonneg, on the transcribed acceptance arithmetic of lm.rs); "
-                "another trial is only started below the evaluation budget (c04_tests_budget); fit_with_statistics = Err(fit result) iff fit failed / coefficients absent / statistics erred (c04_fws). "
-                "The whole control flow of LevenbergMarquardt::minimize is transcribed (Core/LM.lean); the global invariants (monotone objective over the whole run, coherence of the returned state, total budget) are enforced per run by the trace acceptor and are being lifted to theorems over LM.run. "
-                "Tie: fit stream with model-call traces.",
-        "note": "Trusted: Lean kernel; the transcription of lm.rs control flow as validated by the trace acceptor on every fit; QR/LMPAR numerics are oracles (nothing assumed); floating point modelled not verified.",
+        "text": "Kernel-checked for EVERY behaviour of the numerical oracles (QR, LMPAR, norms are unconstrained parameters of the transcribed optimizer): fit = Ok exactly when the termination reason it reports is ResidualsZero/Orthogonal/Converged and both branches carry the optimizer's final problem and report (c04_ok_iff, c04_report, c04_successful_iff); "
+                "a trial is accepted only if it strictly decreases the residual norm (c04_accept_decreases, c04_objective_decreases, c04_predicted_nonneg); over a WHOLE run, by invariants over LM.run: the reported objective never exceeds the objective at the initial guess (c04_monotone), "
+                "after a successful termination the returned problem reports residuals that are those of the parameters it reports and the reported objective is half their squared norm - also when the last trial was rejected and the accepted parameters were re-applied (c04_coherent, for problems whose outputs are a function of the applied parameters = C10), "
+                "the evaluation count never exceeds max(patience*(P+1),2) and the optimizer model always terminates (c04_budget, c04_tests_budget); fit_with_statistics = Err(fit result) iff fit failed / coefficients absent / statistics erred (c04_fws). "
+                "Tie: fit stream; every model call of every fit is logged and checked by a trace acceptor to be an execution of LM.run.",
+        "note": "Trusted: Lean kernel; the transcription of lm.rs control flow (Core/LM.lean) as validated by the trace acceptor on every fit; QR/LMPAR numerics are oracles (nothing assumed); NumLaws (0 < 1/2, 0 < 1e-4, 0 <= min_positive, norms >= 0); floating point modelled not verified.",
     },
     "C09": {
         "text": "Kernel-checked for an ARBITRARY user model (a state machine that may fail at any call depending on any hidden state - this subsumes every fault schedule): a failure in set_params or eval leaves no residuals, coefficients or Jacobian (c09_absent, c09_no_recompute_on_rejection), "
